@@ -594,6 +594,9 @@ impl Property for C14 {
             let i = wr.usize_below(nblocks);
             sizes[i] = 200;
         }
+        // a library-written file encodes multi-entry maps in hash order, which would make the file
+        // (and so the set of crash points) differ from process to process: one entry at most there
+        let producer = if wr.fork("producer").chance(3, 4) { Producer::Reference } else { Producer::Library };
         let payload = if wr.chance(2, 3) {
             // small schemas: the file is re-read once per byte offset
             let schema = match wr.below(8) {
@@ -608,6 +611,9 @@ impl Property for C14 {
             let mut vg = ValueGen::new(&p.defs);
             vg.max_blob = 40;
             vg.max_len = 2;
+            if producer == Producer::Library {
+                vg.max_map = 1;
+            }
             let blocks = sizes.iter().map(|n| (0..*n).map(|_| vg.gen(&mut wr, &schema, 0)).collect()).collect();
             Payload::Generic { schema, blocks }
         } else {
@@ -629,7 +635,7 @@ impl Property for C14 {
             codec,
             user_meta,
             marker: marker_from(&mut wr),
-            producer: if wr.chance(3, 4) { Producer::Reference } else { Producer::Library },
+            producer,
             salt: wr.next_u64(),
             only: None,
         })
